@@ -5,7 +5,7 @@ S = '/verif/seeded'
 rows = []
 for name in sorted(os.listdir(S)):
     d = os.path.join(S, name)
-    if not os.path.isdir(d) or name == 'own':
+    if not os.path.isdir(d) or name in ('own', 'benign'):
         continue
     m = json.load(open(os.path.join(d, 'meta.json')))
     notes = open(os.path.join(d, 'agent_notes.md')).read() if os.path.exists(os.path.join(d, 'agent_notes.md')) else ''
